@@ -3,7 +3,7 @@
  * hooks on and dumps the totally ordered history.
  *
  *   SEED n | WATCHDOG s | PERTURB 0|1
- *   POOL <i> <fifo|fifo_wait|randws> <priv|spsc|mpsc|spmc|mpmc>
+ *   POOL <i> <fifo|fifo_wait|randws> <priv|spsc|mpsc|spmc|mpmc> [user]   (user: not freed by the runtime)
  *   ES <i> <default|basic|basic_wait|prio|randws> <pool,pool,...>      (i >= 1)
  *   UNIT <i> <U|T> <N|A> <pool> : ops      U ULT / T tasklet, N named / A unnamed; pool 99 = primary's main pool
  *   EXT <i> : ops                           external pthread
@@ -47,7 +47,7 @@ static int g_nu;
 static unit_t g_ext[16];
 static int g_next;
 static unit_t g_main;
-static struct { char kind[16], access[8]; ABT_pool h; volatile int dead; } g_pool[MAXP];
+static struct { char kind[16], access[8]; ABT_pool h; volatile int dead; int user; } g_pool[MAXP];
 static int g_npool;
 static struct { char sched[16]; int npools; int pools[MAXP]; ABT_xstream h; } g_es[MAXES];
 static int g_nes = 1;
@@ -279,6 +279,9 @@ static void run_ops(unit_t *me)
                     ;
                 break;
             }
+            case 'Z': /* sleep 2 ms (the caller keeps its stream busy meanwhile) */
+                usleep(2000);
+                break;
             case 'S':
                 vh_note(UEV_OPB, 'S', me->idx, 0);
                 ret = ABT_self_suspend();
@@ -450,7 +453,8 @@ static void run_ops(unit_t *me)
                     /* the replaced scheduler and the (automatic) pools only it uses are freed by the runtime */
                     int q;
                     for (q = 0; q < g_es[i].npools; q++)
-                        g_pool[g_es[i].pools[q]].dead = 1;
+                        if (!g_pool[g_es[i].pools[q]].user && g_es[i].pools[q] != p)
+                            g_pool[g_es[i].pools[q]].dead = 1;
                     g_es[i].npools = 1;
                     g_es[i].pools[0] = p;
                 }
@@ -527,6 +531,7 @@ static void load(const char *path)
         else if (sscanf(line, "POOL %d %15s %7s", &a, s1, s2) == 3) {
             if (a != g_npool)
                 VH_DIE("POOL indices must be consecutive");
+            g_pool[a].user = strstr(line, " user") != NULL;
             strcpy(g_pool[a].kind, s1);
             strcpy(g_pool[a].access, s2);
             g_npool++;
@@ -631,7 +636,8 @@ int main(int argc, char **argv)
         VH_DIE("ABT_init");
     ABT_xstream_self(&g_es[0].h);
     for (i = 0; i < g_npool; i++) {
-        ret = ABT_pool_create_basic(pk(g_pool[i].kind), pa(g_pool[i].access), ABT_TRUE, &g_pool[i].h);
+        ret = ABT_pool_create_basic(pk(g_pool[i].kind), pa(g_pool[i].access), g_pool[i].user ? ABT_FALSE : ABT_TRUE,
+                                    &g_pool[i].h);
         if (ret != ABT_SUCCESS)
             VH_DIE("pool_create_basic");
     }
@@ -715,6 +721,9 @@ int main(int argc, char **argv)
     for (i = 0; i < g_nu; i++)
         if (g_u[i].named == 'N' && g_u[i].created && g_u[i].h != ABT_THREAD_NULL)
             ABT_thread_free(&g_u[i].h);
+    for (i = 0; i < g_npool; i++)
+        if (g_pool[i].user)
+            ABT_pool_free(&g_pool[i].h);
     ABT_finalize();
     return 0;
 }
